@@ -10,6 +10,7 @@ CONSTANTS
   NWorkers = 1
   MaxIters = 2
   WalOn = FALSE
+  FailKinds = {"error"}
   MaxDown = 1
   MaxRot = 0
   MaxTick = 0
